@@ -314,6 +314,11 @@ func (aquahash *Aquahash) verifyHeader(chain consensus.ChainReader, header, pare
 		if header.Time.Cmp(math.MaxBig256) > 0 {
 			return errLargeBlockTime
 		}
+		if !header.Time.IsUint64() {
+			// the difficulty rule below is evaluated on Time.Uint64(): a larger
+			// timestamp would be judged by its truncation
+			return errLargeBlockTime
+		}
 	} else {
 		if header.Time.Cmp(big.NewInt(time.Now().Add(allowedFutureBlockTime).Unix())) > 0 {
 			return consensus.ErrFutureBlock
